@@ -340,6 +340,35 @@ func (s *c07Signer) Sign(msg []byte) ([]byte, error) {
 	return s.key.SignText(string(msg)), nil
 }
 
+// c07FailSigner always fails; c07BadNameSigner has a name Sign must refuse.
+type c07FailSigner struct{ key *refnote.Key }
+
+func (s *c07FailSigner) Name() string                   { return s.key.Name }
+func (s *c07FailSigner) KeyHash() uint32                { return s.key.KeyHash() }
+func (s *c07FailSigner) Sign(msg []byte) ([]byte, error) { return nil, errors.New("signer unavailable") }
+
+// c07PoisonSign performs a Sign call that fails only after an earlier signer has already produced
+// its signature (a later signer errors, or has an invalid name). Whatever state such a call leaves
+// behind must not leak into later Sign calls, which are checked right afterwards.
+func (e *c07Env) c07PoisonSign(r *rand.Rand) {
+	perm := r.Perm(len(e.pool))
+	A, B := e.pool[perm[0]], e.pool[perm[1]]
+	good := e.realSigner(A)
+	if good == nil {
+		return
+	}
+	var bad note.Signer = &c07FailSigner{key: B}
+	if r.IntN(2) == 0 {
+		bad = &c07Signer{name: "bad name+x", key: B, signed: new([]string)}
+	}
+	_, err := note.Sign(&note.Note{Text: "poison text of an earlier, failed call\n"}, good, bad)
+	if err == nil {
+		e.c.Class("unspecified:sign-with-failing-signer-succeeded")
+		return
+	}
+	e.c.Class("rt:failed-sign-call-before-the-checked-one")
+}
+
 func (e *c07Env) realSigner(k *refnote.Key) note.Signer {
 	if s, ok := e.signer[k]; ok {
 		return s
@@ -907,6 +936,9 @@ func c07RunRT(e *c07Env, r *rand.Rand, id string, k int) {
 
 	var msg []byte
 	var err error
+	if r.IntN(3) == 0 {
+		e.c07PoisonSign(r)
+	}
 	if c.Guard(id, func() any { return ctx }, func() { msg, err = note.Sign(&note.Note{Text: text}, signers...) }) {
 		return
 	}
@@ -1448,7 +1480,8 @@ func c07RunDup(e *c07Env, r *rand.Rand, id string, k int) {
 // family amb: ambiguous keys in note.VerifierList
 
 var c07AmbScen = []string{"same-verifier-twice:signed", "same-key-two-verifiers:signed", "collision-pair-both-listed:signed-by-one", "collision-pair-both-listed:signed-by-both",
-	"ambiguous-not-in-message", "collision-one-listed:good-then-other", "collision-one-listed:other-then-good", "ambiguous-liar-and-honest"}
+	"ambiguous-not-in-message", "collision-one-listed:good-then-other", "collision-one-listed:other-then-good", "ambiguous-liar-and-honest",
+	"same-key-listed-3-times:signed", "same-key-listed-4-times:signed", "same-key-listed-5-times:signed", "same-key-listed-3-times:last-is-a-liar"}
 
 func c07RunAmb(e *c07Env, r *rand.Rand, id string, k int) {
 	c := e.c
@@ -1498,13 +1531,28 @@ func c07RunAmb(e *c07Env, r *rand.Rand, id string, k int) {
 		add(e.col[0], c07Honest)
 		add(B, c07Honest)
 		lines = []string{good(B), good(e.col[1]), good(e.col[0])}
+	case "same-key-listed-3-times:signed", "same-key-listed-4-times:signed", "same-key-listed-5-times:signed":
+		n := int(scen[len("same-key-listed-")] - '0')
+		for i := 0; i < n; i++ {
+			add(A, c07Honest)
+		}
+		add(B, c07Honest)
+		lines = []string{good(A), good(B)}
+	case "same-key-listed-3-times:last-is-a-liar":
+		add(A, c07Honest)
+		add(A, c07Honest)
+		add(B, c07Honest)
+		add(A, c07LieTrue)
+		lines = []string{good(B), refnote.RawLine(A.Name, A.KeyHash(), c07Bytes(r, 64))}
 	case "ambiguous-liar-and-honest":
 		add(A, c07LieTrue)
 		add(A, c07Honest)
 		add(B, c07Honest)
 		lines = []string{good(B), refnote.RawLine(A.Name, A.KeyHash(), c07Bytes(r, 64))}
 	}
-	r.Shuffle(len(w.vers), func(i, j int) { w.vers[i], w.vers[j] = w.vers[j], w.vers[i] })
+	if !strings.HasSuffix(scen, "last-is-a-liar") {
+		r.Shuffle(len(w.vers), func(i, j int) { w.vers[i], w.vers[j] = w.vers[j], w.vers[i] })
+	}
 	var l []note.Verifier
 	for _, v := range w.vers {
 		l = append(l, v)
